@@ -409,7 +409,7 @@ def _run(ctx, ex):
         for s in bad2["steps"]:                            # a queue that always claims to have room
             s[5] = 1
         bad3 = {**good, "steps": [list(s) for s in good["steps"]]}
-        for s in bad3["steps"][-(K_LIVE * 3):]:            # entries never become readable after writing stops
+        for s in bad3["steps"]:                            # entries never become readable (r_rdy stuck low)
             s[6] = 0
         bad4 = {**good, "steps": [list(s) for s in good["steps"]]}
         bad4["steps"][len(bad4["steps"]) // 2][9] = good["depth"] + 1      # r_level out of range
